@@ -232,7 +232,12 @@ class FOs(object):
         return 4242
 
     def isatty(self, fd):
-        return self._h.isatty0 if fd == 0 else False
+        t = self._h.isatty0
+        if t is True:
+            return fd in (0, 1, 2)
+        if not t:
+            return False
+        return fd in t  # an explicit collection of terminal descriptors
 
     def umask(self, mask):
         old = self._h.m.umask
